@@ -60,6 +60,14 @@ class SymGenerator:
         REG.append((self.seed, self.state))
         return (_unpickle_gen, (len(REG) - 1,))
 
+    @property
+    def bit_generator(self):
+        """numpy's Generator.bit_generator: its `state` is a record (PCG64 state / inc, has_uint32, uinteger) of
+        uninterpreted projections of the abstract stream position; assigning a record builds the position BG_MK(fields).
+        The pairing fact BG_MK(proj(s)) == s is added whenever a state is read, so that code which saves and restores
+        *every* field gets the same stream back, and code that drops a field does not."""
+        return _SymBitGen(self)
+
     def _step(self, kind, args, n, sort, constrain):
         args = [_arg(a) for a in args]
         sig = [RS] + [R] * len(args)
@@ -162,6 +170,48 @@ def _unpickle_gen(i):
     return SymGenerator(*REG[i])
 
 
+_BG_FIELDS = ('state', 'inc', 'has_uint32', 'uinteger')
+
+
+class _SymBitGen:
+    def __init__(self, gen):
+        self._g = gen
+
+    @property
+    def state(self):
+        st = self._g.state
+        proj = [uf('bg_' + f, RS, I)(st) for f in _BG_FIELDS]
+        # which field values the real bit generator can have at this point is not modelled: a counterexample on a path
+        # that reads or writes the bit generator state counts only if the real generator reproduces it (level 1)
+        cur().scratch['level1_only'] = True
+        cur().fact(uf('bg_mk', I, I, I, I, RS)(*proj) == st)
+        return {'bit_generator': 'PCG64', 'state': {'state': SV(proj[0]), 'inc': SV(proj[1])},
+                'has_uint32': SV(proj[2]), 'uinteger': SV(proj[3])}
+
+    @state.setter
+    def state(self, d):
+        def i(x):
+            t = lift(x)
+            return t if t.sort() == I else z3.ToInt(t)
+        self._g.state = uf('bg_mk', I, I, I, I, RS)(i(d['state']['state']), i(d['state']['inc']), i(d['has_uint32']),
+                                                    i(d['uinteger']))
+
+
+class _RecBitGen:
+    """bit generator of the scripted (level 2) generator: the stream is scripted, so its state is inert"""
+
+    def __init__(self):
+        self._st = {'bit_generator': 'PCG64', 'state': {'state': 0, 'inc': 1}, 'has_uint32': 0, 'uinteger': 0}
+
+    @property
+    def state(self):
+        return dict(self._st, state=dict(self._st['state']))
+
+    @state.setter
+    def state(self, d):
+        self._st = dict(d)
+
+
 class SymRandomState:
     """np.random.RandomState(seed) handed to an estimator: a stateful stream; every estimator fit that draws from it
     sees (and advances) the current position"""
@@ -218,6 +268,10 @@ class RecordingGenerator:
         self._g = st['_g']
         self.seed = st['seed']
         self._log = CURRENT_LOG[0]
+
+    @property
+    def bit_generator(self):
+        return self._g.bit_generator
 
     def random(self, size=None):
         o = self._g.random(size)
@@ -296,6 +350,12 @@ class ScriptedGenerator:
     def __reduce__(self):
         SCRIPTED.append(self)
         return (_unpickle_scripted, (len(SCRIPTED) - 1,))
+
+    @property
+    def bit_generator(self):
+        if not hasattr(self, '_bg'):
+            self._bg = _RecBitGen()
+        return self._bg
 
     def random(self, size=None):
         o = np.array(self._s.take('rand', _n(size)), dtype=float)
